@@ -424,7 +424,7 @@ class Gen:
         """scalar expression over env"""
         r = self.rng
         S = [i for i, t in enumerate(env_types) if t == "S"]
-        V = [i for i, t in enumerate(env_types) if t == "V"]
+        V = [i for i, t in enumerate(env_types) if t in ("V", "W")]
         P = [i for i, t in enumerate(env_types) if t == "P"]
         choices = ["c"]
         if S:
@@ -488,6 +488,21 @@ class Gen:
             elif k == "fn":
                 np_ = r.randint(1, 2)
                 calls.append((addr, self.fn(["S"] * np_, depth - 1), [self.sexpr(env) for _ in range(np_)], "S"))
+            elif k == "vmap" and r.random() < 0.2:
+                # Vmap applied directly to a Vmap (2-D grid of sites): inner repeat, outer map
+                d = self.dist()
+                np_ = ARITY[d[1]]
+                inner = ("vmap", d, tuple([False] * np_), r.choice([2, 3]))
+                V = [i for i, t in enumerate(env) if t == "V"]
+                axes, es = [], []
+                for _ in range(np_):
+                    if V and r.random() < 0.6:
+                        axes.append(True)
+                        es.append(("v", r.choice(V)))
+                    else:
+                        axes.append(False)
+                        es.append(self.sexpr(env))
+                calls.append((addr, ("vmap", inner, tuple(axes), self.N), es, "W"))
             elif k == "vmap":
                 np_ = r.randint(1, 2)
                 callee = self.scalar_gf(np_, depth - 1)
